@@ -313,8 +313,82 @@ func runZooCase(c zooCase) *core.Failure {
 		return runMiscZoo(c, qf)
 	case "sticky":
 		return runSticky(c)
+	case "clausetree":
+		t := c10ClauseTrees()[c.A]
+		what := fmt.Sprintf("Filter(%s) on %s frame", t.name, c10VariantNames[c.Variant])
+		r := qf.Filter(t.cl)
+		if !t.bad && r.Err != nil {
+			return core.Failf("%s: valid request was rejected: %v", what, r.Err)
+		}
+		return expectErrFrame(what, r, t.bad)
+	case "constexpr":
+		// expressions over constants only (the model of C07 decides which of them are invalid); compared in full
+		e := constPairExprs()[c.A]
+		style := "expr"
+		if c.B == 1 {
+			style = "raw"
+		}
+		return runEvalCase(evalCase{Shape: c.D, Dst: "n", Expr: e, Style: style, User: c.C == 1})
 	}
 	return core.Failf("unknown suite %q", c.Suite)
+}
+
+// clause trees: every tree of depth <= 2 over Not/And/Or (one or two members, both orders) with the leaves
+// {valid filter, filter on an unknown column, empty And, empty Or}; invalid iff it holds any leaf but the valid one
+type c10Tree struct {
+	cl   qframe.FilterClause
+	bad  bool
+	name string
+}
+
+var c10trees []c10Tree
+
+func c10ClauseTrees() []c10Tree {
+	if c10trees != nil {
+		return c10trees
+	}
+	l0 := []c10Tree{
+		{qframe.Filter{Column: "i", Comparator: ">", Arg: 0}, false, "ok"},
+		{qframe.Filter{Column: "zz", Comparator: ">", Arg: 0}, true, "unknown-col"},
+		{qframe.And(), true, "And()"},
+		{qframe.Or(), true, "Or()"},
+	}
+	combine := func(args, deeper []c10Tree, needDeeper bool) []c10Tree {
+		var out []c10Tree
+		isDeeper := map[string]bool{}
+		for _, d := range deeper {
+			isDeeper[d.name] = true
+		}
+		for _, x := range args {
+			if !needDeeper || isDeeper[x.name] {
+				out = append(out, c10Tree{qframe.Not(x.cl), x.bad, "Not(" + x.name + ")"},
+					c10Tree{qframe.And(x.cl), x.bad, "And(" + x.name + ")"},
+					c10Tree{qframe.Or(x.cl), x.bad, "Or(" + x.name + ")"})
+			}
+			for _, y := range args {
+				if needDeeper && !isDeeper[x.name] && !isDeeper[y.name] {
+					continue
+				}
+				out = append(out, c10Tree{qframe.And(x.cl, y.cl), x.bad || y.bad, "And(" + x.name + ", " + y.name + ")"},
+					c10Tree{qframe.Or(x.cl, y.cl), x.bad || y.bad, "Or(" + x.name + ", " + y.name + ")"})
+			}
+		}
+		return out
+	}
+	l1 := combine(l0, nil, false)
+	l2 := combine(append(append([]c10Tree{}, l0...), l1...), l1, true)
+	c10trees = append(append([]c10Tree{}, l1...), l2...)
+	// three members, the empty clause in every position of a clause of its own kind
+	ok := l0[0]
+	for _, e := range l0[2:] {
+		for pos := 0; pos < 3; pos++ {
+			m := []qframe.FilterClause{ok.cl, ok.cl, ok.cl}
+			m[pos] = e.cl
+			c10trees = append(c10trees, c10Tree{qframe.And(m...), true, fmt.Sprintf("And(3 members, %s at %d)", e.name, pos)},
+				c10Tree{qframe.Or(m...), true, fmt.Sprintf("Or(3 members, %s at %d)", e.name, pos)})
+		}
+	}
+	return c10trees
 }
 
 func applyFnZoo() []zooItem {
@@ -992,6 +1066,26 @@ func c10Run(ctx *core.Ctx) {
 			}
 			ctx.Nontrivial(fmt.Sprintf("m/%d/%d", vi, mi))
 			exec(zooCase{Suite: "misc", Variant: vi, A: mi}, "misc")
+		}
+	}
+	for vi := range vars {
+		for ti := range c10ClauseTrees() {
+			if !ctx.Mine() {
+				continue
+			}
+			ctx.Nontrivial(fmt.Sprintf("t/%d/%d", vi, ti))
+			exec(zooCase{Suite: "clausetree", Variant: vi, A: ti}, "clausetree")
+		}
+	}
+	for ei := range constPairExprs() {
+		for style := 0; style < 2; style++ {
+			for user := 0; user < 2; user++ {
+				if !ctx.Mine() {
+					continue
+				}
+				ctx.Nontrivial(fmt.Sprintf("ce/%d/%d/%d", ei, style, user))
+				exec(zooCase{Suite: "constexpr", D: int(ctx.Index() % int64(model.NShapes)), A: ei, B: style, C: user}, "constexpr")
+			}
 		}
 	}
 	// sticky: every errored frame x every continuation of length <= 2 (<= 3 over a reduced set in thorough)
